@@ -84,7 +84,12 @@ impl MarkdownEventsReader {
                             }
                         }
                     } else {
-                        self.metadata = Some(text.to_string());
+                        // the block may arrive in several pieces (one per line when lines end in CRLF)
+                        self.metadata = Some(format!(
+                            "{}{}",
+                            self.metadata.take().unwrap_or_default(),
+                            text
+                        ));
                     }
                 }
                 Code(text) => {
